@@ -196,6 +196,129 @@ def canonical_field_names(facts):
     return ren
 
 
+def canonical_helper_names(crate):
+    """The rules speak of two private word-count helpers by name: capacity_from_byte_len (Bvd) and capacity_from_bit_len
+    (Bvf, Bvd). When no function of that name exists, a private one-argument function of the type with the defining equation
+    (ceil(n / BIT_UNIT); ceil(n / size_of::<u64>()); byte_len((n + 7) / 8) or ceil(n / 64)) is taken to be it under another
+    name and is renamed in the facts (its body and every call site), so that renaming a private helper is not mistaken for
+    lost anchors. -> {new name: canonical name}"""
+    done = {}
+
+    def ceil_div(e, num, den_pred):
+        if is_call(e, "div_ceil") and len(e[3]) == 2:
+            return e[3][0] == num and den_pred(e[3][1])
+        if not (is_bin(e, "Div") and den_pred(e[3])):
+            return False
+        n = e[2]
+        return is_bin(n, "Sub") and n[3] == ("int", 1) and is_bin(n[2], "Add") and n[2][2] == num and den_pred(n[2][3])
+
+    def is_unit(x):
+        x = strip_casts(x)
+        return x[0] == "assoc" and x[1] in ("BIT_UNIT", "BITS")
+
+    def is_size(x):
+        return is_call(x, "size_of") and not x[3]
+
+    def rename(b, canon):
+        old_path, old_name = b.path, b.name
+        new_path = old_path[: len(old_path) - len(old_name)] + canon if old_path.endswith(old_name) else old_path
+        for c in crate.bodies:
+            for blk in c.blocks:
+                t = blk["term"]
+                if t["t"] == "call" and t["f"].get("k") == "const" and "fn" in t["f"]:
+                    fn = t["f"]["fn"]
+                    res = fn.get("res") or {}
+                    if fn.get("path") == old_path or res.get("path") == old_path:
+                        fn["name"] = canon
+                        if fn.get("path") == old_path:
+                            fn["path"] = new_path
+                        if res.get("path") == old_path:
+                            res["path"] = new_path
+            c._expr_cache = {}
+        b.name, b.path = canon, new_path
+        b.raw["name"], b.raw["path"] = canon, new_path
+        done[old_name] = canon
+
+    # the unit constants: BYTE_UNIT = size_of::<word>(), NIBBLE_UNIT = 2 * that, BIT_UNIT = 8 * that (or word::BITS)
+    def rename_const(b, canon):
+        old_path, old_name = b.path, b.name
+        new_path = old_path[: len(old_path) - len(old_name)] + canon if old_path.endswith(old_name) else old_path
+
+        def fix(x):
+            if isinstance(x, dict):
+                if x.get("uneval") == old_path and x.get("uneval_name") == old_name:
+                    x["uneval"], x["uneval_name"] = new_path, canon
+                for v in x.values():
+                    fix(v)
+            elif isinstance(x, list):
+                for v in x:
+                    fix(v)
+
+        for c in crate.bodies:
+            fix(c.blocks)
+            c._expr_cache = {}
+        b.name, b.path = canon, new_path
+        b.raw["name"], b.raw["path"] = canon, new_path
+        done[old_name] = canon
+
+    for fam in ("Bvf", "Bvd"):
+        consts = [b for b in crate.bodies if b.self_family == fam and b.kind.startswith("AssocConst") and not b.trait]
+        for canon, mult in (("BYTE_UNIT", 1), ("NIBBLE_UNIT", 2), ("BIT_UNIT", 8)):
+            if any(b.name == canon for b in consts):
+                continue
+            cands = []
+            for b in consts:
+                if b.name in ("BYTE_UNIT", "NIBBLE_UNIT", "BIT_UNIT"):
+                    continue
+                r = strip_casts(b.return_expr())
+                if mult == 1:
+                    ok = is_size(r)
+                else:
+                    ok = is_bin(r, "Mul") and ((is_size(r[2]) and r[3] == ("int", mult)) or (is_size(r[3]) and r[2] == ("int", mult)))
+                    if mult == 8 and r[0] == "assoc" and r[1] == "BITS":
+                        ok = True
+                if ok:
+                    cands.append(b)
+            if len(cands) == 1:
+                rename_const(cands[0], canon)
+    # the canonicaliser of the fixed type: mod2n(&mut self, n) - a private method that only `&=`-s every word with a mask
+    if not any(b.name == "mod2n" and b.self_family == "Bvf" for b in crate.bodies):
+        cands = []
+        for b in crate.bodies:
+            if b.self_family != "Bvf" or b.kind != "AssocFn" or b.arg_count != 2 or b.trait or b.vis.startswith("Public") or not b.loops():
+                continue
+            names = [fn["name"] for bb, t, fn in b.iter_calls() if fn]
+            if "bitand_assign" in names and "mask" in names and all(n in ("into_iter", "iter_mut", "enumerate", "next", "min", "mask", "bitand_assign",
+                                                                           "saturating_sub", "len", "deref_mut", "index_mut") for n in names):
+                cands.append(b)
+        if len(cands) == 1:
+            rename(cands[0], "mod2n")
+    for fam, canon in (("Bvd", "capacity_from_byte_len"), ("Bvf", "capacity_from_bit_len"), ("Bvd", "capacity_from_bit_len")):
+        if any(b.name == canon and b.self_family == fam and b.kind == "AssocFn" for b in crate.bodies):
+            continue
+        cands = []
+        for b in crate.bodies:
+            if b.self_family != fam or b.kind != "AssocFn" or b.arg_count != 1 or b.trait or b.vis.startswith("Public") or b.loops():
+                continue
+            if short_ty(b.local_ty(1)) != "usize" or short_ty(b.local_ty(0)) != "usize":
+                continue
+            p = ("param", b.local_name(1))
+            r = b.return_expr()
+            if canon == "capacity_from_byte_len":
+                ok = ceil_div(r, p, is_size)
+            elif fam == "Bvf":
+                ok = ceil_div(r, p, is_unit)
+            else:
+                bytes_ = ("bin", "Div", ("bin", "Add", p, ("int", 7)), ("int", 8))
+                ok = (is_call(r, "capacity_from_byte_len") and len(r[3]) == 1 and r[3][0] == bytes_) or ceil_div(r, p, is_unit) \
+                    or ceil_div(r, p, lambda x: x == ("int", 64)) or ceil_div(r, bytes_, is_size)
+            if ok:
+                cands.append(b)
+        if len(cands) == 1:
+            rename(cands[0], canon)
+    return done
+
+
 class Crate:
     def new_helper(self, fn):
         """Body of the callee when it is a function of this crate that did not exist on the reviewed tree
@@ -230,6 +353,13 @@ class Crate:
         for b in self.bodies:
             if b.kind == "Closure":
                 self.closures_of[b.parent].append(b)
+        self.helper_aliases = canonical_helper_names(self)
+        if self.helper_aliases:
+            self.by_path = defaultdict(list)
+            for b in self.bodies:
+                b._expr_cache = {}
+                b.__dict__.pop("_shapes", None)
+                self.by_path[b.path].append(b)
 
     @staticmethod
     def load(path, config=None):
